@@ -390,11 +390,18 @@ def _r4(ctx):
                 isinstance(node.test.comparators[0], ast.Constant) and node.test.comparators[0].value in ("tmin", "tmax"):
             which = node.test.comparators[0].value
             found += 1
-            body = ast.Module(body=node.body, type_ignores=[])
+            # the branch together with the helper methods it calls (self._x(value)): extracted code is still this branch's code
+            stmts = list(node.body)
+            kcls = pkg.cls("KROMEReaction")
+            for c_ in ast.walk(ast.Module(body=node.body, type_ignores=[])):
+                if isinstance(c_, ast.Call) and isinstance(c_.func, ast.Attribute) and isinstance(c_.func.value, ast.Name) and c_.func.value.id in ("self", "cls") \
+                        and c_.func.attr in kcls.methods and c_.func.attr.startswith("_"):
+                    stmts += list(kcls.methods[c_.func.attr].body)
+            body = ast.Module(body=stmts, type_ignores=[])
             src = ast.unparse(body)
             nones, ops = set(), set()
             for x in ast.walk(body):
-                if isinstance(x, ast.Compare) and isinstance(x.ops[0], ast.NotIn) and isinstance(x.comparators[0], (ast.List, ast.Tuple, ast.Set)):
+                if isinstance(x, ast.Compare) and isinstance(x.ops[0], (ast.NotIn, ast.In)) and isinstance(x.comparators[0], (ast.List, ast.Tuple, ast.Set)):
                     nones |= set(ast.literal_eval(x.comparators[0]))
                     upper = ".upper()" in ast.unparse(x.left)
                 if isinstance(x, ast.For) and isinstance(x.iter, (ast.List, ast.Tuple)):
@@ -403,9 +410,9 @@ def _r4(ctx):
                       "N / NONE / N/A / NO / empty keep the default (unbounded)", expected=str(sorted(want_none)), found=str(sorted(nones)))
             ctx.check(want_ops <= ops, "R4", f"KROME:{which}:operator tokens", (KROME, node.lineno),
                       "every comparison token of the KROME syntax is stripped before float()", expected=str(sorted(want_ops)), found=str(sorted(ops)))
-            ctx.check(f"{valname}.replace('d', 'e')" in src, "R4", f"KROME:{which}:d-exponent", (KROME, node.lineno), "Fortran d-exponents are converted before float()")
+            ctx.check(re.search(r"\w+\.replace\('d', 'e'\)", src) is not None, "R4", f"KROME:{which}:d-exponent", (KROME, node.lineno), "Fortran d-exponents are converted before float()")
             attr = "temp_min" if which == "tmin" else "temp_max"
-            tgt = [ast.unparse(t) for x in ast.walk(body) if isinstance(x, ast.Assign) for t in x.targets if isinstance(t, ast.Attribute)]
+            tgt = [ast.unparse(t) for x in ast.walk(ast.Module(body=node.body, type_ignores=[])) if isinstance(x, ast.Assign) for t in x.targets if isinstance(t, ast.Attribute)]
             ctx.check(tgt == [f"self.{attr}"], "R4", f"KROME:{which}:target", (KROME, node.lineno), f"the {which} field feeds self.{attr} only", found=str(tgt))
     if found < 2:
         _krome_regex_extractor(ctx, pkg, fn)
